@@ -15,6 +15,10 @@ import (
 type cmdEntry struct {
 	z3   string // text for z3 (may contain lambda)
 	cvc5 string // text for cvc5 ("" = same as z3)
+	// deferred: a quantified hypothesis.  It is kept out of the incremental
+	// solver (whose feasibility answers must stay decidable) and added only
+	// when an obligation is checked.
+	deferred bool
 }
 
 // Solver drives one incremental z3 process and mirrors its assertion stack so
@@ -28,6 +32,7 @@ type Solver struct {
 	stack   [][]cmdEntry
 	timeout int // ms per check-sat
 	curTimeout int
+	ndeferred int
 	scopes  []int
 	nscope  int
 	Checks  int
@@ -70,6 +75,9 @@ func (s *Solver) restart() {
 			io.WriteString(s.in, "(push 1)\n")
 		}
 		for _, c := range fr {
+			if c.deferred {
+				continue
+			}
 			io.WriteString(s.in, c.z3)
 			io.WriteString(s.in, "\n")
 		}
@@ -108,6 +116,17 @@ func (s *Solver) Assert(t *Term) {
 	if t.IsBool && t.B {
 		return
 	}
+	if strings.Contains(t.S, "(forall ") || strings.Contains(t.S, "(exists ") {
+		top := len(s.stack) - 1
+		s.stack[top] = append(s.stack[top], cmdEntry{z3: "(assert " + t.S + ")", deferred: true})
+		s.ndeferred++
+		return
+	}
+	s.raw(cmdEntry{z3: "(assert " + t.S + ")"})
+}
+
+// assertNow sends a (possibly quantified) assertion to the solver process.
+func (s *Solver) assertNow(t *Term) {
 	s.raw(cmdEntry{z3: "(assert " + t.S + ")"})
 }
 
@@ -247,7 +266,18 @@ func (s *Solver) CheckGoal(goal *Term, want []string) (string, map[string]string
 
 func (s *Solver) CheckGoalT(goal *Term, want []string, ms int) (string, map[string]string) {
 	s.Push()
-	s.Assert(Not(goal))
+	// quantified hypotheses take part in obligation checks only
+	if s.ndeferred > 0 {
+		for _, fr := range s.stack[:len(s.stack)-1] {
+			for _, c := range fr {
+				if c.deferred {
+					io.WriteString(s.in, c.z3)
+					io.WriteString(s.in, "\n")
+				}
+			}
+		}
+	}
+	s.assertNow(Not(goal))
 	r := s.CheckSatT(ms)
 	var m map[string]string
 	if r == "sat" && len(want) > 0 {
@@ -321,6 +351,9 @@ func (s *Solver) Script(goal *Term, dialect string) string {
 	}
 	for _, fr := range s.stack {
 		for _, c := range fr {
+			if c.deferred && goal == nil {
+				continue // feasibility queries are quantifier-free
+			}
 			if dialect == "cvc5" && c.cvc5 != "" {
 				sb.WriteString(c.cvc5)
 			} else {
@@ -356,6 +389,12 @@ func RunScript(bin string, script string, timeout time.Duration) (string, time.D
 	out, _ := cmd.Output()
 	d := time.Since(t0)
 	first := strings.TrimSpace(strings.SplitN(string(out), "\n", 2)[0])
+	if d > 500*time.Millisecond && os.Getenv("GVC_SLOW") != "" {
+		fmt.Fprintf(os.Stderr, "slow standalone %.1fs -> %s (%d bytes)\n", d.Seconds(), first, len(script))
+		if f := os.Getenv("GVC_SLOW_DUMP"); f != "" {
+			os.WriteFile(f, []byte(script), 0o644)
+		}
+	}
 	switch first {
 	case "sat", "unsat":
 		return first, d
